@@ -86,6 +86,9 @@ class AttributeCollection(MutableMapping[int, Attribute]):
     cached: ClassVar[AttributeCollection | None] = None
     # previously parsed attribute, from which cached was made of
     previous: ClassVar[Buffer] = b''
+    # the session `previous` was received on: the same bytes do not mean the same thing on a
+    # session with other negotiated parameters (2-byte or 4-byte AS numbers in AS_PATH, AGGREGATOR)
+    previous_negotiated: ClassVar[Any] = None
 
     representation: ClassVar[dict[int, tuple[str, str, str | tuple[str, ...], str, str]]] = {
         # key:  (how, default, name, text_presentation, json_presentation),
@@ -355,7 +358,7 @@ class AttributeCollection(MutableMapping[int, Attribute]):
 
     @classmethod
     def unpack(cls, data: Buffer, negotiated: Negotiated) -> AttributeCollection:
-        if cls.cached and data == cls.previous:
+        if cls.cached and data == cls.previous and cls.previous_negotiated is negotiated:
             return cls.cached
 
         attributes = cls().parse(data, negotiated)
@@ -382,9 +385,11 @@ class AttributeCollection(MutableMapping[int, Attribute]):
 
         if Attribute.CODE.MP_REACH_NLRI not in attributes and Attribute.CODE.MP_UNREACH_NLRI not in attributes:
             cls.previous = data
+            cls.previous_negotiated = negotiated
             cls.cached = attributes
         else:
             cls.previous = b''
+            cls.previous_negotiated = None
             cls.cached = None
 
         return attributes
